@@ -57,9 +57,14 @@ pub async fn handle(req: &Value, ctx: &Arc<FrontendContext>) -> Value {
             let mut out = vec![];
             for f in req["files"].as_array().cloned().unwrap_or_default() {
                 let id = f["id"].as_u64().unwrap_or(0);
-                let mut text = String::new();
+                let mut text: Vec<u8> = Vec::new();
                 let mut lines = vec![];
-                for e in f["entries"].as_array().cloned().unwrap_or_default() {
+                let bad_at = f["bad_line_at"].as_u64().map(|v| v as usize);
+                for (ei, e) in f["entries"].as_array().cloned().unwrap_or_default().into_iter().enumerate() {
+                    if bad_at == Some(ei) {
+                        // a line torn inside a multi-byte character (not valid UTF-8), later appends continue behind it
+                        text.extend_from_slice(&[b'{', b'"', 0xE6, 0x9D, b'\n']);
+                    }
                     let mut w = WalEntry {
                         timestamp: e["ts"].as_u64().unwrap_or(0),
                         context_id: e["ctx"].as_str().unwrap_or("").to_string(),
@@ -69,12 +74,15 @@ pub async fn handle(req: &Value, ctx: &Arc<FrontendContext>) -> Value {
                     };
                     w.set_payload_json(e["payload"].clone());
                     let line = serde_json::to_string(&w).unwrap_or_default();
-                    text.push_str(&line);
-                    text.push('\n');
+                    text.extend_from_slice(line.as_bytes());
+                    text.push(b'\n');
                     lines.push(line);
                 }
+                if bad_at.map(|p| p >= lines.len()).unwrap_or(false) {
+                    text.extend_from_slice(&[b'{', b'"', 0xE6, 0x9D, b'\n']);
+                }
                 if let Some(t) = f["torn_tail"].as_str() {
-                    text.push_str(t); // an incomplete last line (no newline)
+                    text.extend_from_slice(t.as_bytes()); // an incomplete last line (no newline)
                 }
                 let path = dir.join(format!("wal-{:05}.log", id));
                 let _ = std::fs::write(&path, text);
